@@ -212,7 +212,7 @@ impl Property for C02 {
         "deterministic simulation over a configuration swarm (tree decomposition on/off, semi-naive on/off, threads under the token scheduler, thresholds) of seeded conjunctive rules over seeded relations; oracle = nested-loop evaluation in the reference model"
     }
     fn rule(&self) -> &'static str {
-        "case = relations E*(i64 i64), T*(i64 i64 i64), U*(i64) with 0-60 skewed rows each, and one rule (Out v1..vn) :- body, where body is a chain, star, cycle, clique, ternary tree or random connected hypergraph over 2-5 variables decorated with constants, repeated variables, unary filters, primitive guards, computed equalities and duplicate atoms; (run 1), more facts, (run 1) again. The derived relation must equal the model's nested-loop result after each run, and be the same on four engines: default, --no-decomp, semi-naive off, and the rule marked :no-decomp (plus a threaded engine in a sub-batch). Plan reach (single vs decomposed, >= 3 bags) is measured by probes. Non-trivial = the rule derived >= 1 row and the body has >= 3 atoms; distinct = distinct (rule, data)."
+        "case = relations E*(i64 i64), T*(i64 i64 i64), U*(i64) with 0-60 skewed rows each, a rule (Out v1..vn) :- body and, in half of the cases, one or two sibling rules in the same run (variants of the first body with positions re-bound to repeated variables, constants or fresh variables, or independent bodies; plans of one run share trie roots and cached children); hub data puts 17-40 rows under one value of one column in a third of the relations; body is a chain, star, cycle, clique, ternary tree or random connected hypergraph over 2-5 variables decorated with constants, repeated variables (also inside ternary atoms), unary filters, primitive guards, computed equalities and duplicate atoms; (run 1), more facts, (run 1) again. The derived relation must equal the model's nested-loop result after each run, and be the same on four engines: default, --no-decomp, semi-naive off, and the rule marked :no-decomp (plus a threaded engine in a sub-batch). Plan reach (single vs decomposed, >= 3 bags) is measured by probes. Non-trivial = the rule derived >= 1 row and the body has >= 3 atoms; distinct = distinct (rule, data)."
     }
     fn assumptions(&self) -> Vec<String> {
         vec![
